@@ -112,6 +112,8 @@ def apply_edit(draw, model):
         options.append("split")
     if any(len(o["rels"]) >= 2 for _, o in rels):
         options.append("merge")
+    if len({logic.canon(c["ast"]).lower() for c in m["ctcs"]}) >= 2:     # different beyond letter case
+        options.append("ctc-copy")
     if m["ctcs"]:
         options += ["remove-ctc", "operand"]
         if any(c["ast"][0] not in logic.LEAF for c in m["ctcs"]):
@@ -176,6 +178,12 @@ def apply_edit(draw, model):
     elif kind == "add-ctc":
         names = build.names(m)
         m["ctcs"].append({"name": "Added", "ast": ["IMPLIES", ["T", names[0]], ["NOT", ["T", names[-1]]]]})
+    elif kind == "ctc-copy":
+        # one constraint becomes a copy of another, different one: the multiset of constraints changes even when
+        # the set does not (models that repeat a constraint)
+        i = draw(st.integers(0, len(m["ctcs"]) - 1))
+        others = [c for c in m["ctcs"] if logic.canon(c["ast"]).lower() != logic.canon(m["ctcs"][i]["ast"]).lower()]
+        m["ctcs"][i] = {"name": m["ctcs"][i]["name"], "ast": copy.deepcopy(draw(st.sampled_from(others))["ast"])}
     elif kind == "remove-ctc":
         m["ctcs"].pop(draw(st.integers(0, len(m["ctcs"]) - 1)))
     elif kind == "operand":
@@ -201,6 +209,11 @@ def cases(draw, max_feats):
             if kids[0]["name"].lower() == kids[1]["name"].lower():
                 kids[1]["name"] = kids[1]["name"] + "_2"
             owner["rels"].append(build.rel(lo, hi, kids))
+    if m["ctcs"] and draw(st.integers(0, 2)) == 0:
+        # repeated constraints (equal formulas under different names)
+        dup = copy.deepcopy(draw(st.sampled_from(m["ctcs"])))
+        dup["name"] = dup["name"] + "_again"
+        m["ctcs"].insert(draw(st.integers(0, len(m["ctcs"]))), dup)
     mp = permute(draw, m)
     edits = []
     for _ in range(draw(st.integers(1, 3))):
@@ -374,7 +387,7 @@ def classes(case):
 SUBS = [
     Sub("pairs-and-edits", check, gen=lambda tier: cases(14), nontrivial=nontrivial, classes=classes,
         n={"quick": 600, "thorough": 6000},
-        essential=["edit:card", "edit:operand", "edit:operator", "edit:move", "edit:split", "edit:merge",
+        essential=["edit:ctc-copy", "edit:card", "edit:operand", "edit:operator", "edit:move", "edit:split", "edit:merge",
                    "edit:rename", "twin-groups"]),
 ]
 
